@@ -46,7 +46,7 @@ from pedal.sandbox.data import format_contexts
 from pedal.sandbox.exceptions import SandboxException
 from pedal.sandbox.result import is_sandbox_result, unwrap_value
 from pedal.assertions.constants import TOOL_NAME
-from pedal.utilities.text import chomp
+from pedal.utilities.text import chomp, safe_repr
 
 
 class InterpolatedValue:
@@ -89,7 +89,16 @@ class SandboxedValue(InterpolatedValue):
     """ Wrapper around sandboxed values to preformat their text. """
 
     def __str__(self):
-        return ":\n"+self.report.format.python_value(repr(self.value))
+        # The student's object might not be able to describe itself
+        return ":\n"+self.report.format.python_value(safe_repr(unwrap_value(self.value)))
+
+
+def _safe_str(value):
+    """ The value as text, even when its own ``__str__`` raises. """
+    try:
+        return str(value)
+    except Exception:
+        return safe_repr(unwrap_value(value))
 
 
 class AssertionBreak(Exception):
@@ -244,9 +253,9 @@ class RuntimeAssertionFeedback(AssertionFeedback):
         # Handle the number of contexts
         elif not contexts:
             # TODO: Check if this is working correctly; might be wrapping in output weirdly
-            assertion = self.report.format.output(f"{left.value} "
+            assertion = self.report.format.output(f"{_safe_str(left.value)} "
                                                   f"{self._inverse_operator} "
-                                                  f"{right.value}")
+                                                  f"{_safe_str(right.value)}")
         elif len(contexts) == 1:
             # If the expected_verb is a tuple, the right side's value is used
             #   to determine which of the two possible messages should be used.
